@@ -953,7 +953,7 @@ var engProfiles = map[string]engProfile{
 	"flow":  {flow: 0.3, chains: 0.1, disr: 0.1, allows: 0.2},
 	"api":   {disr: 0.35, apiOrder: 0.35, ctl: 0.1, modeSwitch: 0.2},
 	"acct":  {acct: 0.4, chains: 0.2},
-	"ctl":   {ctl: 0.35, rxkeys: 0.15, dirs: 0.45},
+	"ctl":   {ctl: 0.35, rxkeys: 0.15, dirs: 0.45, flow: 0.15},
 	"dirs":  {dirs: 1, rxkeys: 0.15, disr: 0.1},
 	"cache": {cache: 0.5, chains: 0.2},
 	"match": {chains: 0.3, rxkeys: 0.25},
